@@ -72,10 +72,28 @@ structure Inv (a : CBA) (bs : List Block) : Prop extends WInv a bs where
 def Ledger.Matches (L : Ledger) (bs : List Block) : Prop :=
   ∀ x n, (x, n) ∈ L ↔ (⟨x, n, true⟩ : Block) ∈ bs
 
-/-- an operation inside the domain of the model (see ASSUMPTIONS of the check) -/
-def Op.Valid (a : CBA) : Op → Prop
+/-- an operation inside the domain of the model (see ASSUMPTIONS of the check): `alloc(n)` with
+    `n ≥ 1`; `free(None)` or `free(x)` with `x` an address of the allocator's own range (any
+    address: live, already freed, never allocated, interior of a block) -/
+def Op.Valid (off size : Nat) : Op → Prop
   | .alloc n _ => 0 < n
-  | .free (some x) => a.off ≤ x ∧ x < a.off + a.size
+  | .free (some x) => off ≤ x ∧ x < off + size
   | .free none => True
+
+/-! ### what the property demands of one step, in terms of outputs and the ledger only -/
+
+/-- `alloc(n) = x`: `[x, x+n)` is inside the partition `[lo, hi)` and overlaps no live range.
+    `alloc(n) = None`: there is NO free run of length `n` anywhere in the partition. -/
+def StepOk (lo hi : Nat) (L : Ledger) : Op → Out → Prop
+  | .alloc n _, .addr (some x) => FreeRun L lo hi x n
+  | .alloc n _, .addr none => ∀ x, ¬ FreeRun L lo hi x n
+  | .free _, .unit => True
+  | _, _ => False
+
+/-- every step of a history meets `StepOk` against the ledger accumulated so far -/
+def TraceOk (lo hi : Nat) : Ledger → List Op → List Out → Prop
+  | _, [], [] => True
+  | L, op :: ops, o :: os => StepOk lo hi L op o ∧ TraceOk lo hi (L.step op o) ops os
+  | _, _, _ => False
 
 end Sc3Verif.C16
